@@ -126,6 +126,12 @@ class Ref:
             a, b = self.val(t[1]), self.val(t[2])
             if op == 'div' and not _isnum(b):
                 self.domain.append(real(b) != 0)
+            if op == 'pow' and _isnum(a) and a in (0, 1) and not _isnum(b):
+                # the operator overloading folds 1 ** e to 1 and 0 ** e to 0
+                if a == 0:
+                    self.domain.append(real(b) > 0)
+                self.memo[k] = (t, a)
+                return a
             if op == 'pow':
                 if not _isnum(b) or b != int(b):
                     if not _isnum(a):
@@ -178,6 +184,8 @@ class Ref:
             return _add(_mul(d(t[1]), t[2]), _mul(t[1], d(t[2])))
         if op == 'div':
             return _sub(_div(d(t[1]), t[2]), _div(_mul(t[1], d(t[2])), ('pow', t[2], C(2))))
+        if op == 'pow' and t[1][0] == 'c' and t[1][1] in (0, 1):
+            return C(0)                 # folded to a constant by the operator overloading
         if op == 'pow':
             a, b = t[1], t[2]
             out = _mul(_mul(b, ('pow', a, _sub(b, C(1)))), d(a))
@@ -325,14 +333,28 @@ def catalogue(tier):
     pats = [(X, Y, P), (X, X, C(2.0)), (C(2.0), X, Y), (X, C(0.5), P), (P, X, C(4)), (Y, P, X)]
     if tier == 'thorough':
         pats += [(C(-1.5), X, X), (X, Y, X), (P, P, X), (X, C(1), Y), (C(0), X, Y), (X, Y, C(0))]
+    neg = lambda t: t[0] == 'c' and t[1] < 0
     for o1 in BIN:
         for o2 in BIN:
             for k, (a, b, c) in enumerate(pats):
                 if o1 == 'div' and c[0] == 'c' and c[1] == 0:
                     continue
+                if (o2 == 'pow' and neg(a)) or (o1 == 'pow' and neg(a)) or (o2 == 'pow' and neg(b)):
+                    continue        # negative constant base: outside the domain of definition
                 single('nest/L/%s/%s/%d' % (o1, o2, k), (o1, (o2, a, b), c))
                 if not (o2 == 'div' and c[0] == 'c' and c[1] == 0):
                     single('nest/R/%s/%s/%d' % (o1, o2, k), (o1, a, (o2, b, c)))
+    # F3b (thorough): three binary operators, balanced tree
+    if tier == 'thorough':
+        for o1 in BIN:
+            for o2 in BIN:
+                for o3 in BIN:
+                    for k, (a, b, c, d) in enumerate([(X, Y, P, X), (X, C(2.0), Y, P), (P, X, C(0.5), Y)]):
+                        single('nest/B/%s/%s/%s/%d' % (o1, o2, o3, k), (o1, (o2, a, b), (o3, c, d)))
+        for u in UNF:
+            for o1 in BIN:
+                for o2 in BIN:
+                    single('nest/U/%s/%s/%s' % (u, o1, o2), (o1, (u, (o2, X, Y)), (u, P)) if False else (o1, (u, (o2, X, Y)), P))
     # F4: unary inside / outside binary, unary of unary
     for u in ('neg', 'abs', 'sign', 'exp', 'log', 'sin', 'atan', 'asin'):
         for o in BIN:
@@ -744,9 +766,10 @@ def histories(tier):
     H.append(dict(name='shared-expression-remove-one', init=['f', 'g'], steps=[('structure',), ('del', 'f'), ('add', 'a')]))
     H.append(dict(name='three-vars', init=['a', 'b', 'e'], steps=[('set', 'z'), ('structure',)]))
     if tier == 'thorough':
-        keys = ['a', 'b', 'c', 'e']
+        keys = ['a', 'b', 'c']
         for i, (k1, k2) in enumerate(itertools.permutations(keys, 2)):
-            H.append(dict(name='perm%d' % i, init=keys[:3], steps=[('structure',), ('del', k1), ('add', k1) if k1 != k2 else ('structure',), ('del', k2) if k2 in keys[:3] else ('add', k2)]))
+            H.append(dict(name='perm%d' % i, init=keys, steps=[('structure',), ('del', k1), ('del', k2), ('structure',), ('add', k1), ('add', 'e'), ('del', 'e'), ('add', k2)]))
+            H.append(dict(name='perm%d-dict' % i, init=[k1], steps=[('dict+', k2), ('dict+', 'e'), ('structure',), ('dict-', k2), ('del', k1), ('add', k1), ('dict+', k2), ('dict-', 'e')]))
     return H
 
 
